@@ -34,7 +34,10 @@ type primaryGC struct {
 	reclaimed   int64
 }
 
-type UpdateIndexFunc func([]byte, types.Block) error
+// UpdateIndexFunc re-points an index key from the primary record at prevOffset
+// to a new location. It must fail, without changing the index, if the key is
+// not currently mapped to the record at prevOffset.
+type UpdateIndexFunc func(indexKey []byte, prevOffset types.Position, location types.Block) error
 
 func newGC(primary *MultihashPrimary, freeList *freelist.FreeList, interval, timeLimit time.Duration, updateIndex UpdateIndexFunc) *primaryGC {
 	gc := &primaryGC{
@@ -324,8 +327,12 @@ func (gc *primaryGC) reapRecords(fileNum uint32, lowUsePercent int64) (bool, err
 			if err != nil {
 				return false, fmt.Errorf("cannot put new primary record: %w", err)
 			}
-			// Update the index with the new primary location.
-			if err = gc.updateIndex(indexKey, fileOffset); err != nil {
+			// Update the index with the new primary location, but only if
+			// the index still refers to the record being moved. A record
+			// that was overwritten or removed, and is not yet marked as
+			// deleted, must not replace the current value of its key.
+			offset := absolutePrimaryPos(types.Position(busyAt), fileNum, gc.primary.maxFileSize)
+			if err = gc.updateIndex(indexKey, offset, fileOffset); err != nil {
 				log.Errorw("Cannot update index with new record location", "err", err)
 				// Failed to index the moved record, most likely because the
 				// key was not found in the index. The moved record is
@@ -343,7 +350,6 @@ func (gc *primaryGC) reapRecords(fileNum uint32, lowUsePercent int64) (bool, err
 			// keeps low-use files getting processed each GC cycle.
 
 			// Add outdated data in primary storage to freelist
-			offset := absolutePrimaryPos(types.Position(busyAt), fileNum, gc.primary.maxFileSize)
 			blk := types.Block{Size: types.Size(busySize), Offset: types.Position(offset)}
 			if err = gc.freeList.Put(blk); err != nil {
 				return false, fmt.Errorf("cannot put old record location into freelist: %w", err)
